@@ -1,6 +1,6 @@
 module verif/harness
 
-go 1.20
+go 1.22
 
 require github.com/tychoish/fun v0.0.0
 
